@@ -30,6 +30,7 @@ import (
 )
 
 type Clause struct {
+	Optional bool // "ensures?": skipped at call sites where it does not type-check (generic callees)
 	Name string // optional label
 	Src  string
 	Expr ast.Expr
@@ -338,7 +339,7 @@ func (cs *ContractSet) parseFile(root, file string) error {
 			}
 			cs.Funcs[key] = fc
 			cur = fc
-		case "requires", "ensures", "cover":
+		case "requires", "ensures", "ensures?", "cover":
 			if cur == nil {
 				return bad(c, "%s outside func", kw)
 			}
@@ -352,11 +353,11 @@ func (cs *ContractSet) parseFile(root, file string) error {
 			if err != nil {
 				return err
 			}
-			cl := Clause{Name: name, Src: src, Expr: e, Line: c.line}
+			cl := Clause{Name: name, Src: src, Expr: e, Line: c.line, Optional: kw == "ensures?"}
 			switch kw {
 			case "requires":
 				cur.Requires = append(cur.Requires, cl)
-			case "ensures":
+			case "ensures", "ensures?":
 				cur.Ensures = append(cur.Ensures, cl)
 			case "cover":
 				cur.Covers = append(cur.Covers, cl)
